@@ -1533,7 +1533,9 @@ func (pc *PartitionContext) removeAllocation(release *si.AllocationRelease) ([]*
 				zap.String("nodeID", alloc.GetNodeID()))
 			continue
 		}
-		if release.TerminationType == si.TerminationType_PLACEHOLDER_REPLACED {
+		// a replacement can only be confirmed if there is a real allocation linked to the released one,
+		// without it this is handled as a normal removal
+		if release.TerminationType == si.TerminationType_PLACEHOLDER_REPLACED && alloc.HasRelease() {
 			confirmed = alloc.GetRelease()
 			// we need to check the resources equality
 			delta := resources.Sub(confirmed.GetAllocatedResource(), alloc.GetAllocatedResource())
